@@ -29,3 +29,10 @@ pub(crate) fn worker_handle_event<T: VhostUserBackend>(h: &VringEpollHandler<T>,
 pub(crate) fn epfd<T: VhostUserBackend>(h: &VringEpollHandler<T>) -> RawFd {
     h.epoll.as_raw_fd()
 }
+
+pub(crate) fn worker_run<T: VhostUserBackend>(h: &VringEpollHandler<T>) -> bool {
+    let r = h.run();
+    let ok = r.is_ok();
+    std::mem::forget(r);
+    ok
+}
